@@ -1,6 +1,7 @@
 package main
 
 import (
+	"bufio"
 	"fmt"
 	"io"
 	"os"
@@ -296,7 +297,7 @@ func runRobust(sc *streamScenario, rec *recorder, level int) {
 	rec.ev(M{"ev": "reset", "t": sc.SID, "kind": "robust", "npkts": len(bs.pkts)})
 	var all []robustCfg
 	for _, ps := range []int{-1, 188, 192, 204, 189} {
-		for _, rd := range []string{"bytes", "bufio", "plain", "chunk"} {
+		for _, rd := range []string{"bytes", "bufio", "plain", "chunk", "bufio16", "bufio190"} {
 			for _, api := range []string{"packet", "data"} {
 				all = append(all, robustCfg{ps, rd, api})
 			}
@@ -326,15 +327,20 @@ func runRobust(sc *streamScenario, rec *recorder, level int) {
 
 // result codes: 0 ok, 1 error, 2 ErrNoMorePackets, 3 panic
 func runRobustCase(rec *recorder, name string, input []byte, c robustCfg) {
-	cr := &countReader{r: makeReader(c.reader, input, []int{1})}
+	base := c.reader
+	if base == "bufio16" || base == "bufio190" {
+		base = "bytes"
+	}
+	cr := &countReader{r: makeReader(base, input, []int{1})}
 	var r io.Reader = cr
 	if c.reader == "bytes" {
 		r = &countSeekReader{countReader{r: makeReader("bytes", input, nil)}}
 		cr = &r.(*countSeekReader).countReader
 	}
-	if c.reader == "bufio" { // the library must see the *bufio.Reader itself
+	if c.reader == "bufio" || c.reader == "bufio16" || c.reader == "bufio190" { // the library must see the *bufio.Reader itself
 		cr = &countReader{r: makeReader("bytes", input, nil)}
-		r = newBufio(cr)
+		size := map[string]int{"bufio": 4096, "bufio16": 16, "bufio190": 190}[c.reader]
+		r = bufio.NewReaderSize(cr, size)
 	}
 	dmx := newDemuxer(r, demuxRun{PSize: c.psize})
 	bound := len(input) + 3
